@@ -118,6 +118,7 @@ def run(ctx):
                         model_meta.append((kind, pkarg, payload, note, prot, unprot))
                     except wire.Unencodable:
                         pass
+    _batch += unusual_keys(ctx)
     J.run_verify_cases(ctx, "roundtrip-impl-signs", _batch, check_c01=True, prop="C03")
     detach_adversarial(ctx)
     if ctx.driver_ok and model_lines:
@@ -139,6 +140,57 @@ def run(ctx):
                 ok, why = False, err_name(e)
             if not ok:
                 ctx.disagreements.append({"suite": "model-signs->impl-verifies", "request": ln[:400], "model": m[:300], "impl": why})
+
+
+def unusual_keys(ctx):
+    """"Every key of the type the algorithm requires": keys that only ever arrive by import or that a generator rarely
+    produces - RSA moduli whose length is not a multiple of 8 (1031 ... 3071 bits), EC keys with leading zero octets in
+    x, y or d, HMAC keys of 1 ... 200 octets, freshly generated keys of every type - sign in every serialization and must
+    verify with the public half."""
+    from harness import keycases as KC
+    from joserfc.jwk import OctKey, RSAKey, ECKey, OKPKey
+    rng = ctx.rng
+    pool = []
+    for bits, rk in KC.special_rsa_keys():
+        for alg in (("RS256", "PS256") if ctx.tier == "quick" else ("RS256", "RS384", "RS512", "PS256", "PS384", "PS512")):
+            hlen = int(alg[2:]) // 8
+            if alg.startswith("PS") and (bits - 1 + 7) // 8 < 2 * hlen + 2:
+                continue        # RFC 8017 section 9.1.1: emLen < hLen + sLen + 2 - the key is too short for this algorithm
+            pool.append((alg, f"rsa-{bits}-bits", rk, RSAKey.import_key(rk.as_dict(private=False))))
+    crv_alg = {"P-256": "ES256", "P-384": "ES384", "P-521": "ES512", "secp256k1": "ES256K"}
+    for label, ek in KC.special_ec_keys(rng):
+        pool.append((crv_alg[label.split("-special")[0].split("-d-leading")[0]], label, ek, ECKey.import_key(ek.as_dict(private=False))))
+    for n in ([1, 31, 33, 200] if ctx.tier == "quick" else [1, 2, 15, 16, 17, 31, 32, 33, 47, 48, 63, 64, 65, 128, 129, 200]):
+        ok = OctKey.import_key(rng.randbytes(n))
+        pool.append((rng.choice(["HS256", "HS384", "HS512"]), f"oct-{n}-octets", ok, ok))
+    for alg, gen in (("RS256", lambda: RSAKey.generate_key(2048)), ("ES256", lambda: ECKey.generate_key("P-256")),
+                     ("ES512", lambda: ECKey.generate_key("P-521")), ("EdDSA", lambda: OKPKey.generate_key("Ed25519")),
+                     ("EdDSA", lambda: OKPKey.generate_key("Ed448")), ("HS512", lambda: OctKey.generate_key(512))):
+        g = gen()
+        pool.append((alg, "generated-" + g.key_type, g, g if g.key_type == "oct" else type(g).import_key(g.as_dict(private=False))))
+    out = []
+    for alg, label, sk, pk in pool:
+        for kind in (S.KINDS if ctx.tier != "quick" else rng.sample(list(S.KINDS), 2)):
+            payload = b"payload " + label.encode()
+            prot, unprot = S.headers_for(rng, alg, kind)
+            try:
+                value, _ = S.impl_sign(kind, prot, unprot, payload, sk, {"algorithms": J.ALL_ALGS})
+            except Exception as e:  # noqa: BLE001
+                ctx.report(f"serialization failed for an admissible key ({label}): {err_name(e)}", {"alg": alg, "kind": kind, "key": sk.as_dict()},
+                           f"sign-failed-unusual:{kind}")
+                continue
+            vc = S.verify_case_for(kind, value, pk, payload)
+            vc.note = f"produced-unusual-key-{alg}:{kind}:{label}"
+
+            def expect(case, impl, payload=payload, label=label):
+                if impl[0] != "ok":
+                    return f"the library's own output signed with key {label} does not verify with its public key: {impl[1]}"
+                if impl[1][0] != payload:
+                    return "verification returned a payload different from the one signed"
+                return None
+            vc.expect = expect
+            out.append(vc)
+    return out
 
 
 def detach(ctx, kind, value, pkarg, payload):
